@@ -474,7 +474,11 @@ func (r *Runner) DelMulti(b string, objs []ObjID) (string, string) {
 		body.WriteString("<Object><Key>")
 		xml.EscapeText(&body, []byte(o.Key))
 		body.WriteString("</Key>")
-		if o.Version != "" {
+		if o.Version == "null" {
+			// the only version of a key that has none: for the model a plain delete
+			body.WriteString("<VersionId>null</VersionId>")
+			ids = append(ids, hx(o.Key))
+		} else if o.Version != "" {
 			body.WriteString("<VersionId>" + o.Version + "</VersionId>")
 			ids = append(ids, hx(o.Key)+"@"+o.Counter)
 		} else {
